@@ -31,7 +31,11 @@ func init() {
 }
 
 // c07Eval returns (class, detail); class "" means pass.
-func c07Eval(s []byte) (string, string) {
+func c07Eval(s []byte, rets ...*retained) (string, string) {
+	var ret *retained
+	if len(rets) > 0 {
+		ret = rets[0]
+	}
 	rs := redact.RedactableString(s)
 	rb := redact.RedactableBytes(append([]byte(nil), s...))
 	st := rs.StripMarkers()
@@ -42,8 +46,13 @@ func c07Eval(s []byte) (string, string) {
 	if st != string(stb) {
 		return "variants-disagree", fmt.Sprintf("StripMarkers string %q vs bytes %q on %q", st, stb, s)
 	}
+	ret.keep(stb, fmt.Sprintf("RedactableBytes(%q).StripMarkers()", s))
 	rd := rs.Redact()
 	rdb := rb.Redact()
+	ret.keep(rdb, fmt.Sprintf("RedactableBytes(%q).Redact()", s))
+	if d := ret.check(); d != "" {
+		return "result-aliasing", d
+	}
 	if !bytes.Equal([]byte(rb), s) {
 		return "mutates-input", fmt.Sprintf("RedactableBytes.Redact modified its receiver %q", s)
 	}
@@ -121,7 +130,7 @@ func checkC07(c *Ctx) {
 	c.Section("C07/arbitrary", map[string]interface{}{"alphabet": alphaC07, "max_tokens": n}, en.Total, func(i int, w *Worker) {
 		s := en.Get(i, nil)
 		w.Eval()
-		if cl, d := c07Eval(s); cl != "" {
+		if cl, d := c07Eval(s, w.Retained()); cl != "" {
 			w.Fail(cl, map[string]interface{}{"s": s, "quoted": q(string(s))}, d)
 		}
 		if WF(s) {
@@ -140,7 +149,7 @@ func checkC07(c *Ctx) {
 			return
 		}
 		w.Eval()
-		if cl, d := c07Eval(s); cl != "" {
+		if cl, d := c07Eval(s, w.Retained()); cl != "" {
 			w.Fail(cl, map[string]interface{}{"s": s, "quoted": q(string(s))}, d)
 		}
 		w.SeenS(string(redact.RedactableString(s).Redact()))
